@@ -305,7 +305,8 @@ impl Memfs {
         // Validate path components
         let dir = path.dir()?;
         if let Some(entry) = guard.get_entry(&dir) {
-            if !entry.is_dir() {
+            // Links are not resolved as intermediate path components, so a link can't be a parent
+            if !entry.is_dir() || entry.is_symlink() {
                 return Err(PathError::is_not_dir(dir).into());
             }
         } else {
@@ -1680,7 +1681,7 @@ impl VirtualFileSystem for Memfs {
         }
         let target_dir = target.dir()?;
         match guard.get_entry(&target_dir) {
-            Some(x) if x.is_dir() => {},
+            Some(x) if x.is_dir() && !x.is_symlink() => {},
             Some(_) => return Err(PathError::is_not_dir(target_dir).into()),
             None => return Err(PathError::parent_not_found(target_dir).into()),
         }
